@@ -8,7 +8,8 @@ options* w_opts_new(void* mem) { return new (mem) options; }
 std::string* w_opts_file(options* o, int i) { return i == 0 ? &o->file1 : i == 1 ? &o->file2 : &o->wrong_option; }
 bool w_opts_flag(options* o, int i) { return i == 0 ? o->missing_operand : i == 1 ? o->display_usage : o->display_version; }
 std::vector<std::string>* w_opts_patterns(options* o, int i)
-{ return i == 0 ? &o->drop_fn_regex_patterns : i == 1 ? &o->drop_var_regex_patterns : i == 2 ? &o->keep_fn_regex_patterns : &o->keep_var_regex_patterns; }
+{ return i == 0 ? &o->drop_fn_regex_patterns : i == 1 ? &o->drop_var_regex_patterns : i == 2 ? &o->keep_fn_regex_patterns : i == 3 ? &o->keep_var_regex_patterns
+    : i == 4 ? &o->kernel_abi_whitelist_paths : &o->suppression_paths; }
 unsigned long w_vec_size(std::vector<std::string>* v) { return v->size(); }
 std::string* w_vec_at(std::vector<std::string>* v, unsigned long i) { return &(*v)[i]; }
 }
